@@ -9,7 +9,8 @@ import Operon.Model.Genome
   add <id> <gene> · mutate <id> <name> <val> · rollback <id> <name> · expr <id> <name> <lvl> ·
   silence <id> <name> · activate <id> <name> · replicate <id> <inherit> <n:v,…|-> · express <id> <none|-|n,n,…> ·
   setallow <id> <0|1> · setcb <id> <cb|none> · setrate <id> <0|1>   (assignment to the public attributes
-  allow_mutations / on_mutation / mutation_rate of a live genome) ·
+  allow_mutations / on_mutation / mutation_rate of a live genome) · setsilent <id> <0|1> (g.silent; no effect on the model) ·
+  repeat <n> <op> [/ <op>]*   (the operation lines between the `/`, n times over: a long history in one line) ·
   poke <id> <name> <gene|getv|express|export>   in-place mutation (`.append(0)`) of the value OBJECT obtained through
                                 get_gene(n).value / get_value(n) / express({n: 1})[n] / export(); only the mutable
                                 value codes 200..299 denote objects that can be mutated; a value is printed as
@@ -326,6 +327,16 @@ def dstep1 (st : DSt) (toks : List String) : DSt × String :=
   | ["stats", i] =>
     match i.toNat? with
     | some i => exec st (.stats i)
+    | none => (st, "bad-op")
+  | ["setsilent", i, b] =>
+    -- `g.silent = <truthy | falsy>`: console output is not modelled, so nothing in the model changes
+    match i.toNat? with
+    | some i =>
+      if b = "0" || b = "1" then
+        match st.store.genomes[i]? with
+        | none => let (st', str) := showStore st; (st', "bad | " ++ str ++ " ## badid")
+        | some _ => let (st', str) := showStore st; (st', "ok | " ++ str ++ " ## assign:silent")
+      else (st, "bad-op")
     | none => (st, "bad-op")
   | ["getv", i, n] =>
     match i.toNat?, n.toNat? with
